@@ -4,7 +4,7 @@
 //verif:assume tree: files a (2 symbolic bytes), d/b (1 symbolic byte), e (empty) each present or absent, plus generated-path decoys .datamon/x and d/.datamon (a legal user file); leaf size 64; entries per index file 1..3
 //verif:cover VerifC04Reassembly malformed-middle-file reassembled
 //verif:cover VerifC04Select missing-skipped single-file filtered
-//verif:cover VerifC04UploadDownload decoy-skipped nested-datamon-kept two-index-files empty-bundle
+//verif:cover VerifC04UploadDownload decoy-skipped nested-datamon-kept two-index-files empty-bundle source-read-fault-reported unreadable-source-file-skipped
 package core
 
 import (
@@ -56,6 +56,25 @@ func VerifC04UploadDownload() {
 		BundleDescriptor(model.NewBundleDescriptor(model.Message("m"), model.BundleContributor(model.Contributor{Name: "n", Email: "e@x.io"}))),
 		ConcurrentFileUploads(2))
 	up.BundleDescriptor.LeafSize = 64
+	// the source store fails to open file a: the upload reports it, or - when told to skip such files - stores all the others
+	if _, hasA := src.data["a"]; hasA {
+		if mode := vChoose("sourceReadFault", 3); mode > 0 {
+			src.fail = func(op, key string) error {
+				if op == "get" && key == "a" {
+					return errVFault
+				}
+				return nil
+			}
+			if mode == 1 {
+				vCover("source-read-fault-reported")
+				vAssert(implUpload(ctx, up, E, nil) != nil, "unreadable-source-file-fails-the-upload")
+				return
+			}
+			vCover("unreadable-source-file-skipped")
+			up.SkipOnError = true
+			delete(want, "a")
+		}
+	}
 	err := implUpload(ctx, up, E, nil)
 	vAssert(err == nil, "upload-succeeds")
 	if _, ok := src.data[".datamon/x"]; ok {
